@@ -75,6 +75,7 @@ type machine struct {
 	newJobs    [][]choiceRec
 	pendingVal uint64
 	unknownQ   int // decisions whose feasibility the solver could not decide
+	randDraws  int // math/rand draws so far (identifier generation)
 	havocs     int // float operations abstracted to an unconstrained result (§2.9c)
 
 	// symbolic inputs
